@@ -1,0 +1,15 @@
+//go:build verif
+
+package queue
+
+import "github.com/lindb/lindb/pkg/queue/page"
+
+// VerifSetPageFactory replaces the page factory constructor used by queues and consumer groups
+// (nil restores the default). Verification hook only.
+func VerifSetPageFactory(fn func(path string, pageSize int) (page.Factory, error)) {
+	if fn == nil {
+		newPageFactoryFunc = page.NewFactory
+		return
+	}
+	newPageFactoryFunc = fn
+}
